@@ -59,6 +59,7 @@ type Runner struct {
 	MutatedAfterSet, MutatedAfterGet                                                                           int
 	Lookups, Hits, MustHits                                                                                    int
 	DirectBlockWrites                                                                                          int
+	DeepWalks                                                                                                  int             // lookups whose answer lies 20 or more links behind the queried block
 	lookedAt                                                                                                   map[string]bool // key@block looked up at state level
 	removedKeys                                                                                                map[string]bool
 }
@@ -163,10 +164,16 @@ func (r *Runner) judge(what string, got statecache.Value, ok bool, want Entry, f
 // stateTruth gives the expectation for a state-level lookup at hash.
 func (r *Runner) stateTruth(key, hash string) (Entry, bool, bool) {
 	if r.H.TimeAware {
-		e, found, _ := r.Tree.TruthNow(key, hash, r.committed)
+		e, found, depth := r.Tree.TruthNow(key, hash, r.committed)
+		if found && depth >= 20 {
+			r.DeepWalks++
+		}
 		return e, found, found && !r.removedKeys[key]
 	}
-	e, found, _ := r.Tree.Truth(key, hash)
+	e, found, depth := r.Tree.Truth(key, hash)
+	if found && depth >= 20 && r.committed[hash] {
+		r.DeepWalks++
+	}
 	return e, found, false
 }
 
